@@ -51,7 +51,7 @@ PROPS = {
         title='STARK proofs are accepted exactly for traces that satisfy the constraints',
         design_ref='DESIGN.md section 4 / C09',
         bounded=[('starky', ['c09_'])],
-        vspecs=['contracts/C09/constraint_consumer.vspec'],
+        vspecs=['contracts/C09/constraint_consumer.vspec', 'contracts/C09/stark_degree.vspec'],
         level_text='Unbounded deductive proof (Verus/Z3) that ConstraintConsumer accumulates acc_i*alpha_i + c*filter with filter = 1, z_last, L_first, L_last for '
                    'constraint / constraint_transition / constraint_first_row / constraint_last_row respectively (a swapped or missing filter fails the '
                    'postcondition). The STARK verifier/prover themselves (iterator pipelines) are covered by a bounded stand-in only.',
@@ -108,17 +108,18 @@ PROPS = {
         title='FRI opening proofs attest only true evaluations of low-degree polynomials',
         design_ref='DESIGN.md section 4 / C05',
         bounded=[('plonky2', ['c05_'])],
-        vspecs=['contracts/C05/fri_verifier.vspec', 'contracts/C18/fri_shape.vspec', 'contracts/C12/merkle_verify.vspec'],
+        vspecs=['contracts/C05/fri_verifier.vspec', 'contracts/C05/batch_fri_verifier.vspec', 'contracts/C18/fri_shape.vspec', 'contracts/C12/merkle_verify.vspec'],
         level_text='Unbounded deductive proof (Verus/Z3) of the verifier check skeleton: verify_fri_proof returns Ok only if the shape is valid, the '
                    'proof-of-work response has the required leading zeros, the number of query rounds equals the configured one, and for EVERY '
                    'query round: every initial-oracle Merkle path, the first-layer consistency, every per-layer fold consistency with the right beta, '
                    'every commit-phase Merkle path at the right coset index and the final-polynomial evaluation were checked (fri_verifier_query_round: '
-                   'Ok <==> that conjunction). The algebra called by the skeleton is abstracted by uninterpreted functions.',
+                   'Ok <==> that conjunction). verify_batch_fri_proof: Ok only if shape, proof-of-work on the transcript response, round count and the per-round '
+                   'check of EVERY round held (the batch per-round function itself is bounded-only). The algebra called by the skeleton is abstracted by uninterpreted functions.',
         level_note='Trusted: Verus+Z3; compute_evaluation, fri_combine_initial, PolynomialCoeffs::eval, flatten, reverse_bits, from_os_and_alpha as '
                    'uninterpreted functions; FriParams from common data (params_ok). FRI soundness over these checks is outside the family. '
-                   'Prover side and batch FRI not covered.',
+                   'Prover side not covered; batch_fri_verifier_query_round / batch_fri_verify_initial_proof (scan closures) bounded harness only.',
         remainder=['FRI soundness theorem (proximity gaps) over the checked conjunction', 'prover side: fri_committed_trees, fri_proof_of_work, prove_openings',
-                   'batch FRI verifier', 'reduction_arity_bits strategies'],
+                   'batch FRI per-round function (batch_fri_verifier_query_round) and batch prover', 'reduction_arity_bits strategies'],
     ),
     'C03': dict(
         title='Accepted proofs are bound to each of their elements and to their circuit',
